@@ -171,16 +171,10 @@ Record J0 (max : nat) (s : st) (o : sp) (h : list (N * N)) : Prop := {
   j_inv1 : inv1 max s;
   j_incl : incl (locked s) (map snd (holders o));
   j_cred : forall x, cntP (pendq (queue s)) x <= cntP (credits o) x;
-  j_wait : forall c r, In (c, r) (waiting o) -> ~ In c (tainted o) ->
-           exists p, In p (queue s) /\ p_c p = c /\ In r (p_rooms p);
-  j_dead : forall c k, In (c, k) (dead s) -> In c (tainted o);
+  j_wait : forall c r, In (c, r) (waiting o) ->
+           exists p, In p (queue s) /\ p_c p = c /\ In r (p_rooms p) /\ alive (dead s) p = true;
+  j_dead : forall x, In x (dead s) -> In x (deadch o);
   j_h : Permutation h (holders o) }.
-
-Lemma untainted_alive : forall max s o h p, J0 max s o h -> ~ In (p_c p) (tainted o) -> alive (dead s) p = true.
-Proof.
-  intros max s o h p HJ Hn. unfold alive. apply negb_true_iff. apply mem_pair_false. intros Hin.
-  apply Hn. exact (j_dead _ _ _ _ HJ _ _ Hin).
-Qed.
 
 Lemma acquire_lock_J0 : forall max s o h s' g, J0 max s o h -> acquire_lock s = (s', g) -> (g <> [] -> avail s >= 1) ->
   exists o', sp_grants o g = Some o' /\ J0 max s' o' (gh_grants h g).
@@ -194,11 +188,10 @@ Proof.
     + split; [rewrite Hl; exact Hnd | rewrite Hl, Ha; exact Hlen].
     + rewrite Hl. exact Hincl.
     + intros x. specialize (Q5 x). cbn [g_is ind] in Q5. rewrite Hq. specialize (Hcred x). lia.
-    + intros c r Hin Hnt. destruct (Hwait c r Hin Hnt) as (p & Hp & Hc & Hr).
-      assert (Hal : alive (dead s) p = true).
-      { unfold alive. apply negb_true_iff. apply mem_pair_false. intros Hi. apply Hnt. rewrite <- Hc. exact (Hdead _ _ Hi). }
-      destruct (Q4 p Hp Hal r Hr) as [Hx|(p' & Hp' & [Hc' _] & Hr')]; [discriminate|].
-      exists p'. rewrite Hq. split; [exact Hp'|]. split; [congruence | exact Hr'].
+    + intros c r Hin. destruct (Hwait c r Hin) as (p & Hp & Hc & Hr & Hal).
+      destruct (Q4 p Hp Hal r Hr) as [Hx|(p' & Hp' & Hsame & Hr')]; [discriminate|].
+      exists p'. rewrite Hq, Hd. split; [exact Hp'|]. split; [destruct Hsame; congruence|]. split; [exact Hr'|].
+      rewrite (alive_same _ _ _ Hsame). exact Hal.
     + rewrite Hd. exact Hdead.
     + exact Hh.
   - destruct (Q2 c k r eq_refl) as (Hfree & p0 & Hp0 & Hc0 & Hk0 & Hal0 & Hr0).
@@ -208,19 +201,18 @@ Proof.
     cbn [sp_grants sp_grant]. rewrite Hcr'. eexists. split; [reflexivity|].
     pose proof (take_one_spec _ _ _ Hcr') as Hcnt.
     specialize (Hav ltac:(discriminate)).
-    cbn [gh_grants fold_left cr fst snd]. constructor; cbn [holders credits waiting tainted].
+    cbn [gh_grants fold_left cr fst snd]. constructor; cbn [holders credits waiting deadch].
     + split; rewrite Hl.
       * constructor; [apply memN_false; exact Hfree | exact Hnd].
       * rewrite Ha. cbn [length]. lia.
     + rewrite Hl. cbn [map snd]. intros y [Hy|Hy]; [left; exact Hy | right; apply Hincl; exact Hy].
     + intros x. specialize (Q5 x). cbn [g_is] in Q5. rewrite Hq. specialize (Hcred x). specialize (Hcnt x). lia.
-    + intros c1 r1 Hin Hnt. apply remove_all_In in Hin. destruct Hin as [Hin Hne].
-      destruct (Hwait c1 r1 Hin Hnt) as (p & Hp & Hc & Hr).
-      assert (Hal : alive (dead s) p = true).
-      { unfold alive. apply negb_true_iff. apply mem_pair_false. intros Hi. apply Hnt. rewrite <- Hc. exact (Hdead _ _ Hi). }
-      destruct (Q4 p Hp Hal r1 Hr) as [Hx|(p' & Hp' & [Hc' _] & Hr')].
+    + intros c1 r1 Hin. apply remove_all_In in Hin. destruct Hin as [Hin Hne].
+      destruct (Hwait c1 r1 Hin) as (p & Hp & Hc & Hr & Hal).
+      destruct (Q4 p Hp Hal r1 Hr) as [Hx|(p' & Hp' & Hsame & Hr')].
       * inversion Hx. exfalso. apply Hne. congruence.
-      * exists p'. rewrite Hq. split; [exact Hp'|]. split; [congruence | exact Hr'].
+      * exists p'. rewrite Hq, Hd. split; [exact Hp'|]. split; [destruct Hsame; congruence|]. split; [exact Hr'|].
+        rewrite (alive_same _ _ _ Hsame). exact Hal.
     + rewrite Hd. exact Hdead.
     + apply perm_skip. exact Hh.
 Qed.
@@ -317,6 +309,54 @@ Proof.
   - exists p. split; [apply in_or_app; left; exact Hp | split; [reflexivity | exact Hr]].
 Qed.
 
+(* entries of other circuits are untouched by a request *)
+Lemma merge_req_other : forall q c rooms k p, In p q -> p_c p <> c -> In p (merge_req q c rooms k).
+Proof.
+  induction q as [|x q IH]; intros c rooms k p Hp Hne; [destruct Hp|]. cbn [merge_req].
+  destruct (N.eqb (p_c x) c) eqn:E.
+  - destruct Hp as [Hp|Hp]; [subst x; apply N.eqb_eq in E; contradiction | right; exact Hp].
+  - destruct Hp as [Hp|Hp]; [left; exact Hp | right; apply IH; assumption].
+Qed.
+Lemma enqueue_other : forall q c rooms k p, In p q -> p_c p <> c -> In p (enqueue q c rooms k).
+Proof.
+  intros. unfold enqueue. destruct (existsb _ q); [apply merge_req_other; assumption | apply in_or_app; left; assumption].
+Qed.
+Lemma merge_req_has_gen : forall q c rooms k r, existsb (fun p => N.eqb (p_c p) c) q = true -> In r rooms ->
+  exists p, In p (merge_req q c rooms k) /\ p_c p = c /\ In r (p_rooms p) /\ p_gen p = k.
+Proof.
+  induction q as [|p q IH]; intros c rooms k r He Hr; cbn [existsb merge_req] in *; [discriminate|].
+  destruct (N.eqb (p_c p) c) eqn:E.
+  - eexists. split; [left; reflexivity|]. cbn [p_c p_rooms p_gen]. repeat split. apply add_rooms_In. right. exact Hr.
+  - cbn [orb] in He. destruct (IH c rooms k r He Hr) as (p' & Hp' & Hrest). exists p'. split; [right; exact Hp' | exact Hrest].
+Qed.
+Lemma enqueue_has_gen : forall q c rooms k r, In r rooms ->
+  exists p, In p (enqueue q c rooms k) /\ p_c p = c /\ In r (p_rooms p) /\ p_gen p = k.
+Proof.
+  intros q c rooms k r Hr. unfold enqueue. destruct (existsb (fun p => N.eqb (p_c p) c) q) eqn:E.
+  - apply merge_req_has_gen; assumption.
+  - eexists. split; [apply in_or_app; right; left; reflexivity|]. cbn [p_c p_rooms p_gen]. repeat split. apply in_rev in Hr. exact Hr.
+Qed.
+Lemma merge_req_keeps_gen : forall q c rooms k p r, In p q -> In r (p_rooms p) ->
+  exists p', In p' (merge_req q c rooms k) /\ p_c p' = p_c p /\ In r (p_rooms p') /\ (p' = p \/ (p_c p = c /\ p_gen p' = k)).
+Proof.
+  induction q as [|p0 q IH]; intros c rooms k p r Hp Hr; [destruct Hp|]. cbn [merge_req].
+  destruct (N.eqb (p_c p0) c) eqn:E.
+  - destruct Hp as [Hp|Hp].
+    + subst p0. apply N.eqb_eq in E. eexists. split; [left; reflexivity|]. cbn [p_c p_rooms p_gen].
+      split; [symmetry; exact E|]. split; [apply add_rooms_In; left; exact Hr | right; auto].
+    + exists p. split; [right; exact Hp|]. auto.
+  - destruct Hp as [Hp|Hp].
+    + subst p0. exists p. split; [left; reflexivity|]. auto.
+    + destruct (IH c rooms k p r Hp Hr) as (p' & Hp' & Hrest). exists p'. split; [right; exact Hp' | exact Hrest].
+Qed.
+Lemma enqueue_keeps_gen : forall q c rooms k p r, In p q -> In r (p_rooms p) ->
+  exists p', In p' (enqueue q c rooms k) /\ p_c p' = p_c p /\ In r (p_rooms p') /\ (p' = p \/ (p_c p = c /\ p_gen p' = k)).
+Proof.
+  intros q c rooms k p r Hp Hr. unfold enqueue. destruct (existsb (fun p => N.eqb (p_c p) c) q).
+  - apply merge_req_keeps_gen; assumption.
+  - exists p. split; [apply in_or_app; left; exact Hp|]. auto.
+Qed.
+
 (* ---- one message *)
 Lemma step_J0 : forall max s o h m s' g, J0 max s o h -> wake s -> step s m = (s', g) ->
   exists o', sp_grants (sp_msg o m) g = Some o' /\ J0 max s' o' (gh_grants (gh_msg h m) g) /\ wake s'.
@@ -325,12 +365,23 @@ Proof.
   - (* Request *)
     set (s1 := {| queue := enqueue (queue s) c rooms k; locked := locked s; avail := avail s; dead := dead s |}) in *.
     assert (HJ1 : J0 max s1 (sp_msg o (Request c rooms k)) (gh_msg h (Request c rooms k))).
-    { destruct HJ as [Hi Hincl Hcred Hwait Hdead Hh]. unfold s1; constructor; cbn [sp_msg gh_msg holders credits waiting tainted queue locked avail dead]; auto.
+    { destruct HJ as [Hi Hincl Hcred Hwait Hdead Hh]. unfold s1; constructor; cbn [sp_msg gh_msg holders credits waiting deadch queue locked avail dead]; auto.
       - intros x. rewrite cntP_app. pose proof (enqueue_cred (queue s) c rooms k x). specialize (Hcred x). lia.
-      - intros c0 r0 Hin Hnt. apply in_app_or in Hin. destruct Hin as [Hin|Hin].
-        + apply in_map_iff in Hin. destruct Hin as (r1 & He & Hr1). inversion He; subst. apply enqueue_has. exact Hr1.
-        + destruct (Hwait c0 r0 Hin Hnt) as (p & Hp & Hc & Hr). destruct (enqueue_keeps (queue s) c rooms k p r0 Hp Hr) as (p' & Hp' & Hc' & Hr').
-          exists p'. split; [exact Hp' | split; [congruence | exact Hr']]. }
+      - intros c0 r0 Hin. destruct (mem_pair (c, k) (deadch o)) eqn:Edk.
+        + (* asked on a dropped channel: nothing is owed to c any more *)
+          apply filter_In in Hin. destruct Hin as [Hin Hne]. apply negb_true_iff in Hne. apply N.eqb_neq in Hne. cbn [fst] in Hne.
+          destruct (Hwait c0 r0 Hin) as (p & Hp & Hc & Hr & Hal).
+          exists p. split; [apply enqueue_other; [exact Hp | congruence]|]. auto.
+        + assert (Hlive : mem_pair (c, k) (dead s) = false).
+          { apply mem_pair_false. intros Hx. apply mem_pair_false in Edk. apply Edk. exact (Hdead _ Hx). }
+          apply in_app_or in Hin. destruct Hin as [Hin|Hin].
+          * apply in_map_iff in Hin. destruct Hin as (r1 & He & Hr1). inversion He; subst.
+            destruct (enqueue_has_gen (queue s) c0 rooms k r0 Hr1) as (p & Hp & Hc & Hr & Hg).
+            exists p. split; [exact Hp|]. split; [exact Hc|]. split; [exact Hr|]. unfold alive. rewrite Hc, Hg, Hlive. reflexivity.
+          * destruct (Hwait c0 r0 Hin) as (p & Hp & Hc & Hr & Hal).
+            destruct (enqueue_keeps_gen (queue s) c rooms k p r0 Hp Hr) as (p' & Hp' & Hc' & Hr' & [E|[Ec Eg]]).
+            -- subst p'. exists p. auto.
+            -- exists p'. split; [exact Hp'|]. split; [congruence|]. split; [exact Hr'|]. unfold alive. rewrite Hc', Ec, Eg, Hlive. reflexivity. }
     destruct (acquire_n_J0 max (avail s) s1 _ _ s' g HJ1 (le_n _) H) as (o' & Ho' & HJ').
     exists o'. split; [exact Ho'|]. split; [exact HJ'|].
     apply (acquire_n_wake (avail s) s1 s' g); [apply le_n | exact H].
@@ -338,21 +389,24 @@ Proof.
     destruct (memN r (locked s)) eqn:Er.
     + set (s1 := {| queue := queue s; locked := removeN r (locked s); avail := S (avail s); dead := dead s |}) in *.
       assert (HJ1 : J0 max s1 (sp_msg o (Unlock who r)) (gh_msg h (Unlock who r))).
-      { destruct HJ as [[Hnd Hlen] Hincl Hcred Hwait Hdead Hh]. unfold s1; constructor; cbn [sp_msg gh_msg holders credits waiting tainted queue locked avail dead]; auto.
+      { destruct HJ as [[Hnd Hlen] Hincl Hcred Hwait Hdead Hh]. unfold s1; constructor; cbn [sp_msg gh_msg holders credits waiting deadch queue locked avail dead]; auto.
         - split; [apply removeN_NoDup; exact Hnd|]. cbn [locked avail]. pose proof (removeN_length r (locked s) Hnd (proj1 (memN_In _ _) Er)). lia.
         - intros y Hy. apply removeN_In in Hy. destruct Hy as [Hy Hne]. apply remove_one_keeps_other; [apply Hincl; exact Hy | exact Hne].
         - apply remove_one_Permutation. exact Hh. }
       destruct (acquire_lock_J0 max s1 _ _ s' g HJ1 H ltac:(intros; cbn; lia)) as (o' & Ho' & HJ').
       exists o'. split; [exact Ho'|]. split; [exact HJ'|]. apply (unlock_wake s r s' g Hw Er H).
     + inversion H; subst. exists (sp_msg o (Unlock who r)). split; [reflexivity|]. split; [|exact Hw].
-      destruct HJ as [Hi Hincl Hcred Hwait Hdead Hh]. constructor; cbn [sp_msg gh_msg gh_grants fold_left holders credits waiting tainted]; auto.
+      destruct HJ as [Hi Hincl Hcred Hwait Hdead Hh]. constructor; cbn [sp_msg gh_msg gh_grants fold_left holders credits waiting deadch]; auto.
       * intros y Hy. apply remove_one_keeps_other; [apply Hincl; exact Hy|]. intros E. subst y. apply memN_false in Er. contradiction.
       * apply remove_one_Permutation. exact Hh.
   - (* DropChan *)
     inversion H; subst. exists (sp_msg o (DropChan c k)). split; [reflexivity|]. split.
-    + destruct HJ as [Hi Hincl Hcred Hwait Hdead Hh]. constructor; cbn [sp_msg gh_msg gh_grants fold_left holders credits waiting tainted queue locked avail dead]; auto.
-      * intros c0 r0 Hin Hnt. apply Hwait; [exact Hin|]. intros Hx. apply Hnt. right. exact Hx.
-      * intros c0 k0 [Hx|Hx]; [inversion Hx; subst; left; reflexivity | right; exact (Hdead _ _ Hx)].
+    + destruct HJ as [Hi Hincl Hcred Hwait Hdead Hh]. constructor; cbn [sp_msg gh_msg gh_grants fold_left holders credits waiting deadch queue locked avail dead]; auto.
+      * intros c0 r0 Hin. apply filter_In in Hin. destruct Hin as [Hin Hne]. apply negb_true_iff in Hne. apply N.eqb_neq in Hne. cbn [fst] in Hne.
+        destruct (Hwait c0 r0 Hin) as (p & Hp & Hc & Hr & Hal). exists p. split; [exact Hp|]. split; [exact Hc|]. split; [exact Hr|].
+        unfold alive in *. cbn [mem_pair existsb]. unfold pair_eqb at 1. cbn [fst snd].
+        assert (E : N.eqb (p_c p) c = false) by (apply N.eqb_neq; congruence). rewrite E. cbn [andb orb]. exact Hal.
+      * intros x [Hx|Hx]; [left; exact Hx | right; exact (Hdead _ Hx)].
     + intros p Hp Hal r Hr. cbn [queue dead locked avail] in *. apply alive_mono in Hal. exact (Hw p Hp Hal r Hr).
 Qed.
 
@@ -412,9 +466,7 @@ Qed.
 Lemma J_live : forall max s o h, J0 max s o h -> wake s -> sp_live max o = true.
 Proof.
   intros max s o h HJ Hw. unfold sp_live. apply forallb_forall. intros [c r] Hin. cbn [fst snd].
-  destruct (memN c (tainted o)) eqn:Et; [reflexivity|]. cbn [orb]. apply memN_false in Et.
-  destruct (j_wait _ _ _ _ HJ c r Hin Et) as (p & Hp & Hc & Hr).
-  assert (Hal : alive (dead s) p = true) by (apply (untainted_alive max s o h p HJ); rewrite Hc; exact Et).
+  destruct (j_wait _ _ _ _ HJ c r Hin) as (p & Hp & Hc & Hr & Hal).
   destruct (Hw p Hp Hal r Hr) as [Hl|Ha].
   - apply memN_In in Hl. apply (j_incl _ _ _ _ HJ) in Hl. apply memN_In in Hl. rewrite Hl. reflexivity.
   - destruct (j_inv1 _ _ _ _ HJ) as [Hnd Hlen]. pose proof (NoDup_incl_length Hnd (j_incl _ _ _ _ HJ)) as Hle.
@@ -433,18 +485,18 @@ Qed.
 (* ------------------------------------------------------------------ the order of the grants of one message does not matter *)
 Definition sp_equiv (a b : sp) : Prop :=
   Permutation (holders a) (holders b) /\ (forall x, cntP (credits a) x = cntP (credits b) x) /\
-  (forall x, In x (waiting a) <-> In x (waiting b)) /\ tainted a = tainted b.
+  (forall x, In x (waiting a) <-> In x (waiting b)) /\ deadch a = deadch b.
 
 Lemma sp_grants_char : forall g s s', sp_grants s g = Some s' ->
   Permutation (holders s') (map cr g ++ holders s) /\
   (forall x, cntP (credits s) x = cntP (map cr g) x + cntP (credits s') x) /\
   (forall x, In x (waiting s') <-> In x (waiting s) /\ ~ In x (map cr g)) /\
-  tainted s' = tainted s.
+  deadch s' = deadch s.
 Proof.
   induction g as [|[[c k] r] g IH]; intros s s' H; cbn [sp_grants] in H.
   - inversion H; subst. cbn [map app]. repeat split; auto; try tauto.
   - unfold sp_grant in H. destruct (take_one (c, r) (credits s)) as [cr'|] eqn:E; [|discriminate].
-    apply IH in H. cbn [holders credits waiting tainted] in H. destruct H as (H1 & H2 & H3 & H4).
+    apply IH in H. cbn [holders credits waiting deadch] in H. destruct H as (H1 & H2 & H3 & H4).
     pose proof (take_one_spec _ _ _ E) as Hc. cbn [map]. change (cr (c, k, r)) with (c, r).
     repeat split.
     + eapply perm_trans; [exact H1|]. apply Permutation_sym. apply Permutation_middle.
@@ -488,8 +540,8 @@ Proof.
   intros max s o o' h [Hi Hincl Hcred Hwait Hdead Hh] (E1 & E2 & E3 & E4). constructor; auto.
   - intros y Hy. apply Hincl in Hy. eapply Permutation_in; [apply Permutation_map; exact E1 | exact Hy].
   - intros x. rewrite <- E2. apply Hcred.
-  - intros c r Hin Hnt. apply Hwait; [apply E3; exact Hin | rewrite E4; exact Hnt].
-  - intros c k Hin. rewrite <- E4. exact (Hdead c k Hin).
+  - intros c r Hin. apply Hwait. apply E3. exact Hin.
+  - intros x Hin. rewrite <- E4. exact (Hdead x Hin).
   - eapply perm_trans; [exact Hh | exact E1].
 Qed.
 
@@ -525,7 +577,7 @@ Proof.
   - intros x [].
   - intros x. lia.
   - intros c r [].
-  - intros c k [].
+  - intros x [].
   - constructor.
 Qed.
 Lemma wake_init : forall max, wake (init max).
@@ -786,7 +838,7 @@ Proof.
             foreign_from (c_svc x) h ms0 = false /\ s' = fst (ghost_after (c_svc x) h ms0) /\
             CInv (deliver cs1 (concat gss0)) (snd (ghost_after (c_svc x) h ms0))).
   { intros cs1' -> HI1 <-. cbn [steps] in Es. inversion Es; subst. cbn. split; [reflexivity|]. split; [reflexivity|]. exact HI1. }
-  destruct e as [c rooms|c|c r|c]; cbn [cev_msgs] in Em.
+  destruct e as [c rooms|c|c|c r|c]; cbn [cev_msgs] in Em.
   - destruct (cn_ended (find_conn (c_conns x) c)); inversion Em; subst.
     + apply (Hnone (c_conns x)); auto.
     + apply (Hsingle (Request c rooms 0) (c_conns x)); auto.
@@ -801,6 +853,20 @@ Proof.
       pose proof (flat_split' (c_conns x) c (ci_nd _ _ HI)) as Hs. fold old in Hs. rewrite Ei in Hs.
       eapply perm_trans; [exact (ci_h _ _ HI)|]. eapply perm_trans; [exact Hs|]. apply Permutation_app_tail. apply Permutation_map.
       cbn [app]. apply Permutation_sym. eapply perm_trans; [apply Permutation_app_comm|]. cbn [app]. apply perm_skip. apply Permutation_app_comm.
+  - (* CTakeFail: the oldest grant is released at once, by the connection that holds it *)
+    destruct (cn_ended (find_conn (c_conns x) c)) eqn:Ee; [inversion Em; subst; apply (Hnone (c_conns x)); auto|].
+    destruct (cn_inbox (find_conn (c_conns x) c)) as [|r rest] eqn:Ei; inversion Em; subst; [apply (Hnone (c_conns x)); auto|].
+    pose proof (flat_split' (c_conns x) c (ci_nd _ _ HI)) as Hs. rewrite Ei in Hs.
+    assert (Hin : In (c, r) h).
+    { eapply Permutation_in; [apply Permutation_sym; eapply perm_trans; [exact (ci_h _ _ HI) | exact Hs]|]. left. reflexivity. }
+    eapply Hsingle; [reflexivity | | | reflexivity].
+    + cbn [bad_unlock]. apply mem_pair_In in Hin. rewrite Hin. reflexivity.
+    + cbn [gh_msg]. apply (set_conn_inv (c_conns x) h); [exact HI | |].
+      * cbn [cn_acq cn_tasks]. destruct (find_conn_in_or_default (c_conns x) c) as [Hi|Hd]; [exact (ci_acq _ _ HI _ Hi) | rewrite Hd; intros y []].
+      * cbn [cn_c]. unfold items at 1. cbn [cn_c cn_inbox cn_tasks].
+        apply Permutation_cons_inv with (a := (c, r)).
+        eapply perm_trans; [apply Permutation_sym; apply remove_one_perm_cons; exact Hin|].
+        eapply perm_trans; [exact (ci_h _ _ HI) | exact Hs].
   - set (old := find_conn (c_conns x) c) in *. destruct (memN r (cn_tasks old)) eqn:Er; inversion Em; subst; [|apply (Hnone (c_conns x)); auto].
     apply memN_In in Er.
     pose proof (flat_split' (c_conns x) c (ci_nd _ _ HI)) as Hs. fold old in Hs.
@@ -884,8 +950,8 @@ Lemma cstep_benign : forall x h e x' ms gss,
   foreign_from (c_svc x) h ms = false /\
   c_svc x' = fst (ghost_after (c_svc x) h ms) /\ CInv (c_conns x') (snd (ghost_after (c_svc x) h ms)).
 Proof.
-  intros x h e x' ms gss HI Hb H. destruct e as [c rooms|c|c r|c]; cbn [cstep] in H.
-  1-3: (eapply cstep_plain_benign; [exact HI | | exact H]; intros c0 Hc; discriminate Hc).
+  intros x h e x' ms gss HI Hb H. destruct e as [c rooms|c|c|c r|c]; cbn [cstep] in H.
+  1-4: (eapply cstep_plain_benign; [exact HI | | exact H]; intros c0 Hc; discriminate Hc).
   cbn [benign_here] in Hb. destruct (cn_ended (find_conn (c_conns x) c)) eqn:Ee.
   - inversion H; subst. cbn. split; [reflexivity|]. split; [reflexivity | exact HI].
   - destruct Hb as [Hb|Hb]; [discriminate|]. exact (cend_benign x h c x' ms gss HI Hb H).
@@ -912,7 +978,7 @@ Lemma no12_benign : forall es x, no12 (known_conn_from x es) -> all_benign x es.
 Proof.
   induction es as [|e tl IH]; intros x H; [exact I|]. cbn [known_conn_from all_benign] in *.
   apply no12_app in H. destruct H as [H1 H2]. split; [|apply IH; exact H2].
-  destruct e as [c rooms|c|c r|c]; cbn [benign_here]; auto.
+  destruct e as [c rooms|c|c|c r|c]; cbn [benign_here]; auto.
   destruct (cn_ended (find_conn (c_conns x) c)); [left; reflexivity | right].
   destruct (cn_tasks (find_conn (c_conns x) c)); [reflexivity|]. destruct H1 as [H1 _]. cbn in H1. discriminate.
 Qed.
